@@ -132,6 +132,9 @@ func (c *Compactor) Compact() (*CompactionResult, error) {
 
 	// Create temp file for new data (always V3 format with name in header area)
 	tempPath := c.filePath + ".compact"
+	// A leftover temp from an earlier interrupted compaction would be opened for appending and its stale
+	// entries (deleted keys, old values) would come back to life: always start from a fresh temp file.
+	_ = os.Remove(tempPath)
 	writer, err := NewFileWriterWithName(tempPath, c.maxBlockSize, swampName)
 	if err != nil {
 		result.Error = err
